@@ -53,6 +53,7 @@ import (
 	"reflect"
 	"runtime"
 	"slices"
+	"strings"
 	"sync/atomic"
 	_ "unsafe"
 
@@ -558,6 +559,12 @@ func callSSA(i *interpreter, caller *frame, callpos token.Pos, fn *ssa.Function,
 			return callIntrinsic(fr, fn, args)
 		}
 		i.funcsSeen[name]++
+		if strings.Contains(name, "/internal/par.Work[") && strings.Contains(name, "]).Do[") && len(args) >= 2 {
+			// par.Work.Do(n, f) runs f on every item with at most n at a time; its result does not
+			// depend on n (its contract), and the engine is sequential: run it with n = 1
+			args[1] = 1
+			modelsHit["par.Work.Do with n=1"]++
+		}
 		if target, ok := i.redirect[name]; ok && (caller == nil || caller.fn != target) {
 			return callSSA(i, caller, callpos, target, args, nil)
 		}
